@@ -2,9 +2,12 @@
 from vf.engine import assume, cover
 from vf.query import Q
 from vf import stubs
-from vf import stubs_c05 as R
+from vf import instrument
 
-from ombott.request_pkg import body_mixin
+instrument.install("ombott")     # scheduling points in front of every ombott statement (used by the stmt/ family only)
+from vf import stubs_c05 as R    # noqa: E402
+
+from ombott.request_pkg import body_mixin    # noqa: E402
 from ombott.request_pkg.errors import BodyParsingError, RequestError
 
 PROPERTY = "C05"
@@ -153,6 +156,66 @@ def run_decoder(stream, b):
     except BodyParsingError:
         return "reject", None
     return "ok", b"".join(parts)
+
+
+# ---------------------------------------------------------------- two decoders at once (another thread), any statement
+STMT_A = b"5\r\nhello\r\n10;x=1\r\n0123456789abcdef\r\n01\r\n!\r\n0\r\n\r\n"
+STMT_A_PAYLOAD = b"hello0123456789abcdef!"
+STMT_BS = {"short": (b"3\r\nabc\r\n0\r\n\r\n", b"abc"), "long": (b"1a\r\n" + b"z" * 26 + b"\r\n00\r\n\r\n", b"z" * 26),
+           "cut": (b"2\r\nab\r\n1", None)}
+
+
+class DecoderSched:
+    """in front of statement k that thread T0 executes inside ombott while it decodes body A, thread T1 decodes body B
+    completely"""
+    def __init__(self, k, encB, b):
+        self.k, self.encB, self.b, self.count, self.result = k, encB, b, 0, None
+
+    def __call__(self):
+        if stubs.SimThreads.cur != "T0":
+            return
+        self.count += 1
+        if self.count == self.k:
+            stubs.SimThreads.cur = "T1"
+            try:
+                self.result = run_decoder(stubs.SymStream(len(self.encB), [], data=self.encB), self.b)
+            finally:
+                stubs.SimThreads.cur = "T0"
+
+
+def stmt_decode(kindB, k, b):
+    stubs.install_sim_threads()
+    st = DecoderSched(k, STMT_BS[kindB][0], b)
+    instrument.set_hook(st)
+    try:
+        resA = run_decoder(stubs.SymStream(len(STMT_A), [], data=STMT_A), b)
+    finally:
+        instrument.set_hook(None)
+    return resA, st
+
+
+def make_stmt(kindB, b):
+    n0 = stmt_decode(kindB, 0, b)[1].count
+    wantB = ("ok", STMT_BS[kindB][1]) if STMT_BS[kindB][1] is not None else ("reject", None)
+    assert 0 < n0 < 2 ** 10, n0
+
+    def q(b0: bool, b1: bool, b2: bool, b3: bool, b4: bool, b5: bool, b6: bool, b7: bool, b8: bool, b9: bool):
+        k = 0
+        for i, bit in enumerate((b0, b1, b2, b3, b4, b5, b6, b7, b8, b9)):
+            if bit:
+                k += 1 << i
+        assume(1 <= k <= n0)
+        resA, st = stmt_decode(kindB, k, b)
+        if st.result is None:
+            return "statement %d of %d not reached" % (k, n0)
+        cover("ok")
+        if resA != ("ok", STMT_A_PAYLOAD):
+            return ("another thread decoded a chunked body (%s) in front of statement %d of %d of this decoder: result %r, "
+                    "payload %r" % (kindB, k, n0, resA, STMT_A_PAYLOAD))
+        if st.result != wantB:
+            return "the other thread's body (%s, decoded in front of statement %d) gave %r, expected %r" % (kindB, k, st.result, wantB)
+        return None
+    return q, n0
 
 
 # ---------------------------------------------------------------- query makers
@@ -755,6 +818,13 @@ def size_queries(tier):
 def queries(tier):
     out = []
     T = tier == "thorough"
+    for kindB, b in ([("short", 8)] if not T else [("short", 8), ("long", 8), ("cut", 8), ("short", 3), ("long", 40)]):
+        fn, n0 = make_stmt(kindB, b)
+        out.append(Q("stmt/%s/b%d" % (kindB, b), fn,
+                     "the decoder reads the concrete body %r (buffer %d) in thread T0; in front of statement k of the ombott code it "
+                     "executes (every k in 1..%d; scheduling points inserted from the current source) simulated thread T1 decodes "
+                     "the body %r completely" % (STMT_A, b, n0, STMT_BS[kindB][0]),
+                     timeout=300, expect_cover=["ok"], family="stmt", config={"statements": n0, "other": kindB, "buffer": b}))
     for i, sh in enumerate(shapes(tier)):
         tag = "s%d" % i
         desc = "shape sizes=%s style=%s ext=%r trailer=%r" % (sh["sizes"], sh["style"], sh["ext"], sh["trailer"])
